@@ -8,7 +8,14 @@
 //
 //	<case>\tmsg <side> <method> <id|noid> <shape> <meta> tag=<hex> iver=<hex> lvl=<hex> mut=<hex> raw=<hex>\t<observation>\t<tags>
 //
-// observation:  w=<none|ok|e<code>[:<supported,...>]|multi> mw=<methods|-> uh=<handlers|-> st=<tag@ver|->/<0|1>/<level>
+// observation:  w=<none|ok|e<code>[:<supported,...>]|multi> mw=<methods|-> uh=<handlers|-> st=<tag@ver|->/<0|1>/<level> rv=<..|->
+// (rv: the protocolVersion of an initialize result / the supportedVersions of a discover result)
+//
+// The server side of the pipe is a transport that either does not implement ProtocolVersionSupporter or
+// implements it with a PRNG-chosen predicate (explicit sets incl. the empty one, only 2026-07-28, a single
+// legacy version, `>= v` / `< v` thresholds); one record per case, right after `reset`:
+//
+//	<case>\ttr <plain|all|set:<hex,..|->|ge:<hex>|lt:<hex>>\tsv=<ServerSession.supportedVersions|->\t<tags>
 // or `panic` (a handler or the process crashed on this envelope), `stuck` (the session stopped reading).
 //
 // Crash containment: the cases are executed by a CHILD copy of this test binary; panics below the
@@ -120,6 +127,141 @@ type gateCase struct {
 	id   string
 	msgs []gateMsg
 	tag  string // extra tag on every record (corpus, replay, exh)
+	tr   string // server transport spec ("": plain transport, and no `tr` record — old replays)
+}
+
+// ---------------------------------------------------------------------------------------------
+// transports
+
+// gateVerTransport is an in-memory transport that declares, through ProtocolVersionSupporter, which
+// protocol versions it serves.
+type gateVerTransport struct {
+	*InMemoryTransport
+	pred func(string) bool
+}
+
+func (t gateVerTransport) SupportsProtocolVersion(v string) bool { return t.pred(v) }
+
+// gateTrPred parses a transport spec; nil predicate: the transport does not implement the interface.
+func gateTrPred(spec string) (pred func(string) bool, ok bool) {
+	switch {
+	case spec == "" || spec == "plain":
+		return nil, true
+	case spec == "all":
+		return func(string) bool { return true }, true
+	case spec == "set:-":
+		return func(string) bool { return false }, true
+	case strings.HasPrefix(spec, "set:"):
+		set := map[string]bool{}
+		for _, h := range strings.Split(spec[4:], ",") {
+			b, err := hex.DecodeString(h)
+			if err != nil {
+				return nil, false
+			}
+			set[string(b)] = true
+		}
+		return func(v string) bool { return set[v] }, true
+	case strings.HasPrefix(spec, "ge:"), strings.HasPrefix(spec, "lt:"):
+		b, err := hex.DecodeString(spec[3:])
+		if err != nil {
+			return nil, false
+		}
+		x := string(b)
+		if spec[:2] == "ge" {
+			return func(v string) bool { return v >= x }, true
+		}
+		return func(v string) bool { return v < x }, true
+	}
+	return nil, false
+}
+
+func gateTrSet(vs ...string) string {
+	if len(vs) == 0 {
+		return "set:-"
+	}
+	h := make([]string, len(vs))
+	for i, v := range vs {
+		h[i] = hxs(v)
+	}
+	return "set:" + strings.Join(h, ",")
+}
+
+// the SDK's versions as the generator knows them (the model takes them from the regenerated table) plus
+// strings no SDK version equals: a transport may claim anything
+var gateSDKVersions = []string{"2026-07-28", "2025-11-25", "2025-06-18", "2025-03-26", "2024-11-05"}
+var gateForeignVersions = []string{"2027-01-01", "2026-07-29", "1999-01-01", "2025-11-25x", "draft"}
+
+// gateTrClass names the class of a spec for the evidence histogram.
+func gateTrClass(spec string) string {
+	pred, ok := gateTrPred(spec)
+	if !ok {
+		return "tr-bad"
+	}
+	if pred == nil {
+		return "tr-plain"
+	}
+	legacy, modern := 0, 0
+	for _, v := range gateSDKVersions {
+		if pred(v) {
+			if v >= "2026-07-28" {
+				modern++
+			} else {
+				legacy++
+			}
+		}
+	}
+	switch {
+	case legacy == 0 && modern == 0:
+		return "tr-none"
+	case legacy == 0:
+		return "tr-new-only"
+	case modern == 0 && legacy == 1:
+		return "tr-one-legacy"
+	case modern == 0:
+		return "tr-legacy-only"
+	case legacy == len(gateSDKVersions)-1:
+		return "tr-all"
+	}
+	return "tr-mixed"
+}
+
+// transport draws the server transport of a random case.
+func (g *gateGen) transport() string {
+	rng := g.rng
+	switch r := rng.Intn(100); {
+	case r < 40:
+		return "plain"
+	case r < 44:
+		return "all"
+	case r < 54: // only the new protocol (as a set, or as the threshold predicate a stdio-only transport would write)
+		if rng.Intn(2) == 0 {
+			return gateTrSet("2026-07-28")
+		}
+		return "ge:" + hxs("2026-07-28")
+	case r < 60: // nothing at all
+		if rng.Intn(2) == 0 {
+			return "set:-"
+		}
+		return gateTrSet(gateForeignVersions[rng.Intn(len(gateForeignVersions))])
+	case r < 68: // exactly one legacy version
+		return gateTrSet(gateSDKVersions[1+rng.Intn(4)])
+	case r < 74: // legacy only (the SSE transport's predicate) / a lower threshold
+		return "lt:" + hxs([]string{"2026-07-28", "2025-06-18", "2025-03-26", "2024-11-05", "2026-07-29"}[rng.Intn(5)])
+	case r < 78:
+		return "ge:" + hxs([]string{"2025-06-18", "2025-11-25", "2026-07-29", "2024-11-05"}[rng.Intn(4)])
+	default: // a random subset, possibly with strings that are no SDK version
+		var vs []string
+		for _, v := range gateSDKVersions {
+			if rng.Intn(2) == 0 {
+				vs = append(vs, v)
+			}
+		}
+		if rng.Intn(3) == 0 {
+			vs = append(vs, gateForeignVersions[rng.Intn(len(gateForeignVersions))])
+		}
+		rng.Shuffle(len(vs), func(i, j int) { vs[i], vs[j] = vs[j], vs[i] })
+		return gateTrSet(vs...)
+	}
 }
 
 // ---------------------------------------------------------------------------------------------
@@ -158,7 +300,10 @@ func gateBase(side, method string, k int, rng *rand.Rand) (map[string]any, []str
 	tag := fmt.Sprintf("t%d", k)
 	switch method {
 	case "initialize":
-		vers := []string{"2025-11-25", "2025-06-18", "2025-03-26", "2024-11-05", "2026-07-28", "1999-01-01", "2099-01-01"}
+		// every class of version string: each SDK version, older / newer / in between unknown ones, a
+		// near-miss, the empty string, a non-date
+		vers := []string{"2025-11-25", "2025-06-18", "2025-03-26", "2024-11-05", "2026-07-28", "1999-01-01", "2099-01-01",
+			"2025-11-25", "2025-06-18", "2026-07-29", "2025-08-01", "2025-11-25x", "", "draft"}
 		return obj(fmt.Sprintf(`{"protocolVersion":%q,"capabilities":{},"clientInfo":{"name":%q,"version":"1"}}`, vers[rng.Intn(len(vers))], tag)), nil
 	case "tools/call":
 		if rng.Intn(3) == 0 {
@@ -554,8 +699,9 @@ func (g *gateGen) msg(side, method string, k int, force string) gateMsg {
 func (g *gateGen) serverCase(id string) gateCase {
 	rng := g.rng
 	n := 1 + rng.Intn(8)
-	c := gateCase{id: id}
-	// about half of the histories start with a well-formed handshake (possibly without `initialized`)
+	c := gateCase{id: id, tr: g.transport()}
+	// about half of the histories start with a well-formed handshake (possibly without `initialized`);
+	// whether it SUCCEEDS depends on the transport
 	if rng.Intn(100) < 50 {
 		c.msgs = append(c.msgs, g.msg("s", "initialize", 0, "legacy"))
 		if rng.Intn(100) < 70 {
@@ -811,7 +957,48 @@ func (p *gatePeer) takeResps() []map[string]json.RawMessage {
 	return r
 }
 
-func gateWire(resps []map[string]json.RawMessage, wantID string, hasID bool) string {
+// gateResultInfo: what a result carries that depends on the transport.
+func gateResultInfo(method string, result json.RawMessage) string {
+	switch method {
+	case "initialize":
+		var r struct {
+			ProtocolVersion *string `json:"protocolVersion"`
+		}
+		if json.Unmarshal(result, &r) != nil || r.ProtocolVersion == nil {
+			return "?"
+		}
+		if *r.ProtocolVersion == "" {
+			return "-"
+		}
+		return strings.NewReplacer(" ", "_", "\t", "_").Replace(*r.ProtocolVersion)
+	case "server/discover":
+		var r struct {
+			SupportedVersions []string `json:"supportedVersions"`
+		}
+		if json.Unmarshal(result, &r) != nil {
+			return "?"
+		}
+		if len(r.SupportedVersions) == 0 {
+			return "-"
+		}
+		return strings.Join(r.SupportedVersions, ",")
+	}
+	return "-"
+}
+
+func gateWire(resps []map[string]json.RawMessage, wantID string, hasID bool, method string) (w, rv string) {
+	w, rv = gateWire1(resps, wantID, hasID), "-"
+	if w == "ok" {
+		for _, r := range resps {
+			if string(r["id"]) == wantID {
+				rv = gateResultInfo(method, r["result"])
+			}
+		}
+	}
+	return
+}
+
+func gateWire1(resps []map[string]json.RawMessage, wantID string, hasID bool) string {
 	var mine []map[string]json.RawMessage
 	stray := 0
 	for _, r := range resps {
@@ -886,9 +1073,31 @@ func gateRunCase(t *testing.T, c gateCase, emit func(i int, obs string), poisone
 		if side == "s" {
 			s := gateNewServer(rec)
 			var err error
-			ss, err = s.Connect(ctx, &InMemoryTransport{rwc: c1}, nil)
+			var tr Transport = &InMemoryTransport{rwc: c1}
+			pred, ok := gateTrPred(c.tr)
+			if !ok {
+				t.Fatalf("bad transport spec %q", c.tr)
+			}
+			if pred != nil {
+				tr = gateVerTransport{&InMemoryTransport{rwc: c1}, pred}
+			}
+			ss, err = s.Connect(ctx, tr, nil)
 			if err != nil {
 				t.Fatal(err)
+			}
+			if c.tr != "" {
+				ss.mu.Lock()
+				sv := append([]string{}, ss.supportedVersions...)
+				isNil := ss.supportedVersions == nil
+				ss.mu.Unlock()
+				switch {
+				case isNil:
+					emit(-1, "sv=nil")
+				case len(sv) == 0:
+					emit(-1, "sv=-")
+				default:
+					emit(-1, "sv="+strings.Join(sv, ","))
+				}
 			}
 		} else {
 			cl := gateNewClient(rec)
@@ -928,7 +1137,7 @@ func gateRunCase(t *testing.T, c gateCase, emit func(i int, obs string), poisone
 				continue
 			}
 			mw, uh, panicked := rec.take()
-			w := gateWire(peer.takeResps(), gateEnvID(m.raw), m.hasID)
+			w, rv := gateWire(peer.takeResps(), gateEnvID(m.raw), m.hasID, m.method)
 			if panicked {
 				// The panic was recovered below the middleware; whatever the handler held (locks) is lost, so
 				// the process is not reused: report, and let the child restart.
@@ -956,7 +1165,7 @@ func gateRunCase(t *testing.T, c gateCase, emit func(i int, obs string), poisone
 				}
 				st = fmt.Sprintf("%s/%d/%s", ip, id, hxs(string(state.LogLevel)))
 			}
-			emit(i, fmt.Sprintf("w=%s mw=%s uh=%s st=%s", w, gateJoin(mw), gateJoin(uh), st))
+			emit(i, fmt.Sprintf("w=%s mw=%s uh=%s st=%s rv=%s", w, gateJoin(mw), gateJoin(uh), st, rv))
 		}
 		// tear down: everything in the bubble must exit
 		if ss != nil {
@@ -979,7 +1188,7 @@ func gateRunCase(t *testing.T, c gateCase, emit func(i int, obs string), poisone
 func gateWriteCases(path string, cases []gateCase) error {
 	var b strings.Builder
 	for _, c := range cases {
-		fmt.Fprintf(&b, "case %s %s\n", c.id, c.tag)
+		fmt.Fprintf(&b, "case %s tag=%s tr=%s\n", c.id, c.tag, c.tr)
 		for _, m := range c.msgs {
 			b.WriteString(m.op() + "\t" + strings.Join(m.tags, ",") + "\n")
 		}
@@ -997,8 +1206,12 @@ func gateReadCases(path string) ([]gateCase, error) {
 		if strings.HasPrefix(ln, "case ") {
 			f := strings.Fields(ln)
 			c := gateCase{id: f[1]}
-			if len(f) > 2 {
-				c.tag = f[2]
+			for _, kv := range f[2:] {
+				if v, ok := strings.CutPrefix(kv, "tag="); ok {
+					c.tag = v
+				} else if v, ok := strings.CutPrefix(kv, "tr="); ok {
+					c.tr = v
+				}
 			}
 			out = append(out, c)
 			continue
@@ -1132,6 +1345,17 @@ func gateExecute(t *testing.T, out *verifOut, cases []gateCase) {
 	defer os.RemoveAll(dir)
 	emitCase := func(c gateCase, obs func(i int) (string, bool)) {
 		out.line(c.id, "reset", "ok", "reset")
+		if c.tr != "" {
+			o, ok := obs(-1)
+			if !ok {
+				return
+			}
+			tags := []string{"cfg", gateTrClass(c.tr)}
+			if c.tag != "" {
+				tags = append(tags, c.tag)
+			}
+			out.line(c.id, "tr "+c.tr, o, tags...)
+		}
 		for i, m := range c.msgs {
 			o, ok := obs(i)
 			if !ok {
@@ -1181,6 +1405,10 @@ func gateExecute(t *testing.T, out *verifOut, cases []gateCase) {
 			}
 			t.Logf("gate harness: child crashed in case %s at envelope %d: %s", bad.id, k, solo.tail)
 			emitCase(bad, func(i int) (string, bool) {
+				if i < 0 {
+					o, ok := solo.obs[[2]int{0, i}]
+					return o, ok
+				}
 				if i < k {
 					return solo.obs[[2]int{0, i}], true
 				}
@@ -1207,6 +1435,13 @@ func gateReplayCases(path, id, tag string) []gateCase {
 		}
 		if ln == "reset" {
 			out = append(out, gateCase{id: fmt.Sprintf("%s-%d", id, len(out)), tag: tag})
+			continue
+		}
+		if f := strings.Fields(ln); len(f) == 2 && f[0] == "tr" {
+			if len(out) == 0 {
+				out = append(out, gateCase{id: id + "-0", tag: tag})
+			}
+			out[len(out)-1].tr = f[1]
 			continue
 		}
 		if m, ok := gateParseOp(ln); ok {
@@ -1241,14 +1476,22 @@ func gateCorpus(side string) []gateCase {
 
 // gateExhaustive enumerates every history of length <= depth over an alphabet of canonical envelopes:
 // each server method once as a well-formed legacy envelope and once carrying complete 2026-07-28 metadata.
-func gateExhaustive(depth int) []gateCase {
+// The histories are run on the given server transport (prefix distinguishes the case ids).
+// core: only the letters the lifecycle depends on (both flavours of initialize, initialized, ping, discover,
+// a listing, a call, a state-changing feature method, an unknown method).
+func gateExhaustive(depth int, tr, prefix string, core bool) []gateCase {
 	methods := append(append([]string{}, gateServerMethods...), "foo/bar")
+	newMethods := []string{"tools/list", "tools/call", "server/discover", "ping", "initialize", "logging/setLevel", "resources/subscribe"}
+	if core {
+		methods = []string{"initialize", "notifications/initialized", "ping", "tools/list", "tools/call", "logging/setLevel", "server/discover", "foo/bar"}
+		newMethods = []string{"tools/list", "server/discover", "initialize"}
+	}
 	type letter struct{ method, force string }
 	var alpha []letter
 	for _, m := range methods {
 		alpha = append(alpha, letter{m, "legacy"})
 	}
-	for _, m := range []string{"tools/list", "tools/call", "server/discover", "ping", "initialize", "logging/setLevel", "resources/subscribe"} {
+	for _, m := range newMethods {
 		alpha = append(alpha, letter{m, "new"})
 	}
 	var out []gateCase
@@ -1256,7 +1499,7 @@ func gateExhaustive(depth int) []gateCase {
 	rec = func(prefix []int) {
 		if len(prefix) > 0 {
 			g := &gateGen{rng: rand.New(rand.NewSource(int64(len(out)) + 77))}
-			c := gateCase{id: fmt.Sprintf("x%d", len(out)), tag: "exh"}
+			c := gateCase{id: fmt.Sprintf("%s%d", prefix, len(out)), tag: "exh", tr: tr}
 			for k, li := range prefix {
 				c.msgs = append(c.msgs, g.msg("s", alpha[li].method, k, alpha[li].force))
 			}
@@ -1291,6 +1534,7 @@ func gateSweep(side string) []gateCase {
 			g := &gateGen{rng: rand.New(rand.NewSource(int64(len(out)) + 991))}
 			c := gateCase{id: fmt.Sprintf("w%s%d", side, len(out)), tag: "sweep"}
 			if side == "s" {
+				c.tr = "plain"
 				c.msgs = append(c.msgs, g.msg("s", "initialize", 0, "legacy"), g.msg("s", "notifications/initialized", 1, "legacy"))
 			}
 			c.msgs = append(c.msgs, mk(g))
@@ -1358,10 +1602,20 @@ func gateCases(side string) []gateCase {
 		}
 	}
 	if side == "s" && os.Getenv("VERIF_CASES") == "" {
+		// every short history, on a transport without ProtocolVersionSupporter and on transports on which
+		// initialize fails (new protocol only; nothing) or is negotiated down (one legacy version; legacy only)
+		deep := 2
 		if verifThorough() {
-			cases = append(cases, gateExhaustive(3)...)
-		} else {
-			cases = append(cases, gateExhaustive(2)...)
+			deep = 3
+		}
+		cases = append(cases, gateExhaustive(deep, "plain", "x", false)...)
+		for _, tr := range [][2]string{{"ge:" + hxs("2026-07-28"), "xn"}, {"set:-", "xe"}, {gateTrSet("2025-03-26"), "xo"}, {"lt:" + hxs("2026-07-28"), "xl"}} {
+			cases = append(cases, gateExhaustive(2, tr[0], tr[1], false)...)
+			if verifThorough() {
+				// <= 3 envelopes over the 11 lifecycle letters: initialize -> failed initialize -> list, discover
+				// followed by legacy traffic, ... on every kind of transport
+				cases = append(cases, gateExhaustive(3, tr[0], tr[1]+"c", true)...)
+			}
 		}
 	}
 	return cases
